@@ -19,11 +19,12 @@ const kaTick = 100 * time.Millisecond
 // darkProxy forwards between the two ends until it goes dark: then it keeps both sockets open and swallows
 // everything (a path that has stopped working without a reset).
 type darkProxy struct {
-	l    net.Listener
-	dark int32
-	wg   sync.WaitGroup
-	mu   sync.Mutex
-	cs   []net.Conn
+	l      net.Listener
+	dark   int32
+	wg     sync.WaitGroup
+	mu     sync.Mutex
+	cs     []net.Conn
+	closed bool
 }
 
 func (p *darkProxy) pipe(dst, src net.Conn) {
@@ -49,6 +50,7 @@ func (p *darkProxy) pipe(dst, src net.Conn) {
 func (p *darkProxy) close() {
 	p.l.Close()
 	p.mu.Lock()
+	p.closed = true // no pipe is added after this (Add never runs next to Wait)
 	for _, c := range p.cs {
 		c.Close()
 	}
@@ -83,9 +85,15 @@ func keepAliveOne(g *gen, fr map[string]interface{}) vh.Event {
 			return
 		}
 		px.mu.Lock()
+		if px.closed {
+			px.mu.Unlock()
+			c.Close()
+			u.Close()
+			return
+		}
 		px.cs = append(px.cs, c, u)
-		px.mu.Unlock()
 		px.wg.Add(2)
+		px.mu.Unlock()
 		go px.pipe(u, c)
 		go px.pipe(c, u)
 	}()
@@ -110,7 +118,7 @@ func keepAliveOne(g *gen, fr map[string]interface{}) vh.Event {
 	var srv net.Conn
 	select {
 	case srv = <-acc:
-	case <-time.After(2 * time.Second):
+	case <-time.After(6 * time.Second):
 		cancelA()
 		ev["note"] = "accept timeout"
 		return ev
